@@ -309,6 +309,50 @@ theorem runText_rel (R : Answer → Answer → Prop) (hR : ∀ a, R a a) (F : Fa
     | fuel => exact hR _
     | missing w => exact hR _
 
+/-- the unary form: a predicate that holds of every answer that is not a run, and of the answer of every run of a
+statement over defined tables, holds of the answer of the program -/
+theorem runText_pred (P : Answer → Prop) (hskip : ∀ w, P (.skip w)) (hpanic : ∀ s, P (.panic s))
+    (hrej : ∀ w p, P (.rejected w p)) (hnc : P .notCreateTable) (hnq : P .notAQuery) (F : Facts)
+    (defsText queryText : List Char) (fmt : Print.Format) (single : Bool) (files : List (List Nat))
+    (h : ∀ defs query tables stmt fromTable join,
+      parseText (lexOracles F) (regexValidFn F) defsText = .stmt defs →
+      parseText (lexOracles F) (regexValidFn F) queryText = .stmt query →
+      addTables defs = some tables → stmtOf query = some (stmt, fromTable, join) →
+      P (answerOfOpt F fmt single (runStatement F tables stmt fromTable join files))) :
+    P (runText F defsText queryText fmt single files) := by
+  unfold runText
+  split
+  · exact hskip _
+  · cases hd : parseText (lexOracles F) (regexValidFn F) defsText with
+    | stmt defs =>
+      simp only
+      split
+      · exact hskip _
+      · cases hq : parseText (lexOracles F) (regexValidFn F) queryText with
+        | stmt query =>
+          simp only
+          cases ht : addTables defs with
+          | none => unfold runLowered; rw [ht]; exact hnc
+          | some tables =>
+            cases hs : stmtOf query with
+            | none => unfold runLowered; rw [ht]; simp only; rw [hs]; exact hnq
+            | some p =>
+              obtain ⟨stmt, fromTable, join⟩ := p
+              rw [runLowered_eq_opt F defs query fmt single files tables stmt fromTable join ht hs]
+              exact h defs query tables stmt fromTable join hd hq ht hs
+        | lexError l e => exact hrej _ _
+        | parseError e => exact hrej _ _
+        | convertError e => exact hrej _ _
+        | panic s => exact hpanic _
+        | fuel => exact hpanic _
+        | missing w => exact hskip _
+    | lexError l e => exact hrej _ _
+    | parseError e => exact hrej _ _
+    | convertError e => exact hrej _ _
+    | panic s => exact hpanic _
+    | fuel => exact hpanic _
+    | missing w => exact hskip _
+
 /-- the same with the file system unchanged -/
 theorem runText_rel_files (R : Answer → Answer → Prop) (hR : ∀ a, R a a) (F : Facts)
     (defsText queryText : List Char) (fmt : Print.Format) (single : Bool) (files files' : List (List Nat))
